@@ -359,6 +359,25 @@ def run(ctx):
                     bad = all(casts) or other_const
                     ctx.inst("C01.R6", "%s#%s[%d]" % (n.replace(CORE, ""), t["msg"], k), not bad, "checked %s on a value cast from a user number (saturates at the type's bounds): overflow panics in the dev profile and wraps in release" % t["msg"], fn.loc(b))
                     k += 1
+    # |x| and -x of a signed integer cast from a user number: the cast saturates, so the type's minimum is reachable (-infinity, -1e30),
+    # and its absolute value / negation overflows (panic in the dev profile, the minimum again in release)
+    def user_cast(o):
+        return any(any(str(p).startswith("as:") and str(p).endswith(":FloatToInt") for p in (r[2] if r[0] in ("param", "local") else r[3] if r[0] in ("call", "agg") else []))
+                   and (r[0] == "param" or (r[0] == "call" and r[1].endswith("as_number"))) for r in fn.trace(o))
+    for n in local:
+        fn = M.Fn(cg.fns[n], n)
+        k = 0
+        for b in range(fn.n):
+            t = fn.term(b)
+            site = None
+            if t["k"] == "assert" and t["msg"].startswith("OverflowNeg") and not t["sp"][5] and t.get("ops") and user_cast(t["ops"][0]):
+                site = "negation"
+            elif t["k"] == "call" and re.match(r"^core::num::<impl i(8|16|32|64|128|size)>::(abs|pow)$", fn.callee(b) or "") and t["args"] and user_cast(t["args"][0]):
+                site = H.last(fn.callee(b))
+            if site:
+                n6 += 1
+                ctx.inst("C01.R6", "%s#signed-%s-of-user-cast[%d]" % (n.replace(CORE, ""), site, k), False, "%s of a signed integer that is a saturating cast of a user number: the minimum of the type is reachable and has no %s (overflow panic in the dev profile)" % (site, "positive counterpart" if site != "pow" else "bounded power"), fn.loc(b))
+                k += 1
     # unsigned subtraction of a quantity computed from a float (a digit count, a magnitude): nothing bounds it below the minuend unless
     # the two are compared first
     for n in local:
@@ -642,6 +661,81 @@ def run(ctx):
         if False in vs_:
             v_ = False
         ctx.inst("C01.R9", "%s->%s" % (n_.replace(CORE, ""), H.last(c_)), v_, "constant position %s: %s" % (k_, "the length of the vector is bounded by a test before the call (see C01.R16)" if v_ else ("no bounding test found" if v_ is None else "the bounding test comes too late")), loc_)
+    # ---------------- R18 how much is allocated in one go
+    ctx.rule("C01.R18", "the size handed to an allocating routine up front (Vec / String with_capacity, reserve, resize, str::repeat, vec![x; n]) is the length of an existing collection or a constant; a size computed from user numbers is used only after a comparison of that very quantity with a bound has exited (otherwise `capacity overflow` panics, or the allocator aborts the process, before the size check is reached)", floor=20)
+    ALLOC = re.compile(r"::with_capacity$|::reserve(_exact)?$|Vec::<T, A>::resize$|alloc::str::<impl str>::repeat$|<impl \[T\]>::repeat$|vec::from_elem")
+    LENLIKE = re.compile(r"::len$|::count$|::capacity$|::size_hint$|::chars_count$")
+    n18 = 0
+    for n in local:
+        fn = M.Fn(cg.fns[n], n)
+        k18 = 0
+        for b in fn.call_blocks():
+            c = fn.callee(b) or ""
+            if not ALLOC.search(c):
+                continue
+            t = fn.term(b)
+            if not t["args"]:
+                continue
+            op = t["args"][-1] if not c.endswith("from_elem") else t["args"][1]
+            if c.endswith("with_capacity") is False and len(t["args"]) >= 2:
+                op = t["args"][1]
+            n18 += 1
+
+            def classify(roots, depth=0, visited=frozenset()):
+                """'safe' | 'user' (computed from numbers) | 'unknown', with the roots that made it so"""
+                worst = "safe"
+                why = []
+                for r in roots:
+                    if r[0] == "const":
+                        continue
+                    if r[0] == "call" and LENLIKE.search(r[1]):
+                        continue
+                    if r[0] == "call" and re.search(r"::(max|min)$", r[1]) and depth < 6:
+                        if r[2] in visited:
+                            continue   # the running maximum of a loop: as safe as what else flows into it
+                        sub = [x for a_ in fn.term(r[2])["args"] for x in fn.trace(a_)]
+                        w2, y2 = classify(sub, depth + 1, visited | {r[2]})
+                        if w2 != "safe":
+                            worst = w2 if worst != "user" else worst
+                            why += y2
+                        continue
+                    proj = r[-1] if isinstance(r[-1], list) else []
+                    from_number = any(str(p_).startswith("as:") and ("Float" in str(p_) or "IntToInt" in str(p_)) for p_ in proj) or (r[0] == "call" and re.search(r"saturating_|wrapping_|checked_|::pow$|as_number|::abs$|::round$|::floor$|::ceil$|::trunc$", r[1]))
+                    if from_number:
+                        worst = "user"
+                        why.append(r)
+                    else:
+                        if worst == "safe":
+                            worst = "unknown"
+                        why.append(r)
+                return worst, why
+            roots = fn.trace(op)
+            kind, why = classify(roots)
+            key = "%s->%s[%d]" % (n.replace(CORE, ""), H.last(c), k18)
+            k18 += 1
+            if kind == "safe":
+                ctx.inst("C01.R18", key, True, "size is a length / constant (%s)" % [r_[:2] for r_ in roots][:3], fn.loc(b))
+                continue
+            # a comparison of the same quantity that dominates the call and leaves on one side
+            guarded = False
+            ids = {(r_[0], r_[1], r_[2]) for r_ in why if r_[0] == "call"}
+            for gb in range(fn.n):
+                tt = fn.term(gb)
+                if tt["k"] != "switch" or not fn.dominates(gb, b) or gb == b:
+                    continue
+                for s_ in fn.stmts(gb):
+                    if s_["k"] == "assign" and s_["rv"]["k"] == "binop" and s_["rv"]["op"] in ("Lt", "Le", "Gt", "Ge"):
+                        for o_ in (s_["rv"]["a"], s_["rv"]["b"]):
+                            if {(x[0], x[1], x[2]) for x in fn.trace(o_) if x[0] == "call"} & ids:
+                                reach = [x for x in fn.succ(gb) if b in fn.reachable(x)]
+                                if len(reach) == 1:
+                                    guarded = True
+            if kind == "user":
+                ctx.inst("C01.R18", key, guarded, "size computed from user numbers (%s); a bound test on it that exits comes first: %s" % ([r_[:2] for r_ in why][:2], guarded), fn.loc(b))
+            else:
+                ctx.inst("C01.R18", key, True if guarded else None, "size of unrecognised origin (%s); bound test first: %s" % ([r_[:2] for r_ in why][:2], guarded), fn.loc(b))
+    ctx.units["up_front_allocation_sites"] = n18
+
     # ---------------- R17 deeply nested JSON is refused, not recursed into
     ctx.rule("C01.R17", "JSON documents are parsed with serde_json's recursion limit in force (128 levels: a deeper document is a reported error): the `unbounded_depth` feature is off and nothing calls disable_recursion_limit - the conversions that walk the parsed value recurse once per level", floor=1)
     from rules import c06 as c06_
